@@ -17,6 +17,7 @@ pub mod c01;
 pub mod c02;
 pub mod c03;
 pub mod c10;
+pub mod c11;
 pub mod c12;
 pub mod c13;
 pub mod c14;
@@ -32,6 +33,7 @@ pub fn lookup(id: &str) -> Option<Box<dyn Prop>> {
     match id {
         "C09" => Some(Box::new(c09::C09)),
         "C10" => Some(Box::new(c10::C10)),
+        "C11" => Some(Box::new(c11::C11)),
         "C12" => Some(Box::new(c12::C12)),
         "C13" => Some(Box::new(c13::C13)),
         "C14" => Some(Box::new(c14::C14)),
